@@ -134,12 +134,7 @@ def run(ctx):
     # threaded traces
     exe = drv.build(ctx, "d", "hooks")
     cs = cases(ctx)
-    from concurrent.futures import ThreadPoolExecutor
-    chunks = [cs[i:i + 10] for i in range(0, len(cs), 10)]
-    res = []
-    with ThreadPoolExecutor(max(1, vf.NCPU // 4)) as ex:
-        for rr in ex.map(lambda ch: drv.run_batch(exe, ch, timeout=900), chunks):
-            res += rr
+    res = drv.run_grouped(exe, cs, par=max(1, vf.NCPU // 4), chunk=10)
     ntr, nbusy, nseq = 0, 0, 0
     for c, r in zip(cs, res):
         bad = None
